@@ -397,8 +397,9 @@ pub enum Prov {
     /// produced by expanding a usage in active text of macro `name`, whose definition stands in `def_file`
     /// with its body text starting at `body_begin`; `usage` numbers the usages
     Exp { name: String, def_file: usize, body_begin: usize, usage: usize },
-    /// synthesised (`__LINE__, `__FILE__, caller-supplied or predefined macro text)
-    Synth,
+    /// synthesised (`__LINE__, `__FILE__, caller-supplied or predefined macro text); Some(usage) when the token is
+    /// part of the expansion of a usage (white space between two tokens of one such segment is synthesised too)
+    Synth(Option<usize>),
 }
 
 #[derive(Clone, Debug, Default)]
@@ -579,12 +580,12 @@ impl<'a> Eval<'a> {
                     self.line_cursor[fi] += 1;
                     let ln = self.rendered.line_numbers[fi].get(k).copied().unwrap_or(0);
                     self.out.push(format!("{}", ln));
-                    self.prov.push(Prov::Synth);
+                    self.prov.push(Prov::Synth(None));
                 }
                 Item::File => {
                     let p = (self.file_path)(&self.prog.files[fi].name);
                     self.out.push(format!("\"{}\"", p));
-                    self.prov.push(Prov::Synth);
+                    self.prov.push(Prov::Synth(None));
                 }
                 Item::Cond { ifndef, chain, els } => {
                     let head = &chain[0].0;
@@ -638,7 +639,7 @@ impl<'a> Eval<'a> {
                     // nested expansions are flattened into the outermost usage's segment
                     let prov = match self.table.get(name) {
                         Some(TableEntry::Def(_, df, bb)) => Prov::Exp { name: name.clone(), def_file: *df, body_begin: *bb, usage: self.usage_counter },
-                        _ => Prov::Synth,
+                        _ => Prov::Synth(Some(self.usage_counter)),
                     };
                     self.usage_counter += 1;
                     let toks = self.expand(name, args.as_ref().map(|v| v.as_slice()), 1)?;
